@@ -15,14 +15,15 @@ import (
 
 // Part "handler-sequence": all nil / non-nil handler combinations, applied one after the other to ONE
 // MonadIO instance (ObserveOn / SubscribeOn are setters; nil is a value like any other: it takes the
-// instance back to in-place, synchronous execution). After every re-configuration the instance is
+// instance back to in-place, synchronous execution; the same buffered handler may be named on both sides).
+// After every re-configuration the instance is
 // subscribed once: the effect runs on the ObserveOn handler's goroutine (the subscriber's own when nil),
 // OnNext on the SubscribeOn handler's goroutine (where the effect ran when nil), each exactly once; with
 // both nil everything has happened when Subscribe returns.
 
 type seqStep struct {
-	Ob    int  `json:"ob"`  // 0 nil, 1 h1, 2 h3
-	Sub   int  `json:"sub"` // 0 nil, 1 h2, 2 h4
+	Ob    int  `json:"ob"`  // 0 nil, k = handler hk (k in 1..3)
+	Sub   int  `json:"sub"` // 0 nil, k = handler hk (k in 1..3): both sides may name the SAME (buffered) handler
 	SetOb bool `json:"setOb"`
 	SetSb bool `json:"setSub"`
 }
@@ -32,8 +33,8 @@ type seqCase struct {
 }
 
 func runSeqCase(c seqCase) (key, msg string, inconclusive bool) {
-	hs := make([]*fpgo.HandlerDef, 4) // h1 h2 h3 h4
-	ids := make([]uint64, 4)
+	hs := make([]*fpgo.HandlerDef, 3) // h1 h2 h3
+	ids := make([]uint64, 3)
 	for i := range hs {
 		hs[i] = fpgo.Handler.NewByCh(make(chan func(), 2))
 		ids[i] = handlerGoID(hs[i])
@@ -57,11 +58,11 @@ func runSeqCase(c seqCase) (key, msg string, inconclusive bool) {
 	curOb, curSub := 0, 0
 	for i, s := range c.Steps {
 		if s.SetOb {
-			m.ObserveOn([]*fpgo.HandlerDef{nil, hs[0], hs[2]}[s.Ob])
+			m.ObserveOn(append([]*fpgo.HandlerDef{nil}, hs...)[s.Ob])
 			curOb = s.Ob
 		}
 		if s.SetSb {
-			m.SubscribeOn([]*fpgo.HandlerDef{nil, hs[1], hs[3]}[s.Sub])
+			m.SubscribeOn(append([]*fpgo.HandlerDef{nil}, hs...)[s.Sub])
 			curSub = s.Sub
 		}
 		mu.Lock()
@@ -96,11 +97,11 @@ func runSeqCase(c seqCase) (key, msg string, inconclusive bool) {
 		mu.Unlock()
 		wantEff := caller
 		if curOb != 0 {
-			wantEff = ids[[]int{0, 0, 2}[curOb]]
+			wantEff = ids[curOb-1]
 		}
 		wantNext := eg
 		if curSub != 0 {
-			wantNext = ids[[]int{0, 1, 3}[curSub]]
+			wantNext = ids[curSub-1]
 		}
 		name := func(g uint64) string {
 			for j, id := range ids {
@@ -117,10 +118,10 @@ func runSeqCase(c seqCase) (key, msg string, inconclusive bool) {
 			return "C11/handler-sequence/count", fmt.Sprintf("step %d: effect ran %d times, OnNext %d times", i, en, nn), false
 		}
 		if eg != wantEff {
-			return "C11/handler-sequence/effect-goroutine", fmt.Sprintf("step %d (ObserveOn=%v SubscribeOn=%v): effect ran on %s, want %s", i, []string{"nil", "h1", "h3"}[curOb], []string{"nil", "h2", "h4"}[curSub], name(eg), name(wantEff)), false
+			return "C11/handler-sequence/effect-goroutine", fmt.Sprintf("step %d (ObserveOn=%v SubscribeOn=%v): effect ran on %s, want %s", i, []string{"nil", "h1", "h2", "h3"}[curOb], []string{"nil", "h1", "h2", "h3"}[curSub], name(eg), name(wantEff)), false
 		}
 		if ng != wantNext {
-			return "C11/handler-sequence/onnext-goroutine", fmt.Sprintf("step %d (ObserveOn=%v SubscribeOn=%v): OnNext ran on %s, want %s", i, []string{"nil", "h1", "h3"}[curOb], []string{"nil", "h2", "h4"}[curSub], name(ng), name(wantNext)), false
+			return "C11/handler-sequence/onnext-goroutine", fmt.Sprintf("step %d (ObserveOn=%v SubscribeOn=%v): OnNext ran on %s, want %s", i, []string{"nil", "h1", "h2", "h3"}[curOb], []string{"nil", "h1", "h2", "h3"}[curSub], name(ng), name(wantNext)), false
 		}
 	}
 	return "", "", false
@@ -147,7 +148,7 @@ func TestHandlerSequence(t *testing.T) {
 		backToNil := false
 		had := [2]bool{}
 		for i := 0; i < n; i++ {
-			s := seqStep{Ob: rapid.IntRange(0, 2).Draw(t, "ob"), Sub: rapid.IntRange(0, 2).Draw(t, "sub"),
+			s := seqStep{Ob: rapid.IntRange(0, 3).Draw(t, "ob"), Sub: rapid.IntRange(0, 3).Draw(t, "sub"),
 				SetOb: rapid.IntRange(0, 3).Draw(t, "setOb") > 0, SetSb: rapid.IntRange(0, 3).Draw(t, "setSub") > 0}
 			if s.SetOb {
 				if s.Ob == 0 && had[0] {
